@@ -512,9 +512,17 @@ func (e *verifEngine) action(f []string) {
 	case "ackcfg":
 		e.ackdb.ackCount = uint8(vatoi(f[1]))
 	case "role":
+		// role 1 = leader, 0 = follower, 2.. = the other non-leader states (sync, config, vote)
 		st := uint8(STATE_FOLLOWER)
-		if f[1] == "1" {
+		switch f[1] {
+		case "1":
 			st = STATE_LEADER
+		case "2":
+			st = STATE_SYNC
+		case "3":
+			st = STATE_CONFIG
+		case "4":
+			st = STATE_VOTE
 		}
 		e.db.managerGlocks[0].Lock()
 		e.db.status = st
